@@ -2,7 +2,7 @@
    proofs in Tok/LexProofs.v over the model Tok/Lex.v of lexer_utils.lex,
    for every text and every lexer output satisfying the Pygments contract
    (offsets start at 0, are contiguous, texts concatenate to the input). *)
-From Verif Require Import Base Token Lex LexProofs.
+From Verif Require Import Base Token Lex LexProofs LexPadProofs.
 From Coq Require Import Sorted.
 Open Scope Z_scope.
 
@@ -42,6 +42,43 @@ Theorem C16_fast_path : forall code lts,
   locate code lts = lex_loop (filter nonempty lts) (newline_indices code) 0 0.
 Proof. exact locate_is_loop. Qed.
 
+(* ---- lex() as the implementation runs it (GD24): the lexer is called on the text with a final line break ensured
+        (lts is its output on [pad_nl code]) and the padding is dropped from the tokens again ---- *)
+Theorem C16_padding_dropped : forall code lts, contract (pad_nl code) lts ->
+  contract code (trim_pad code lts) /\
+  (forall t, In t lts -> nonempty t = true ->
+     lt_off t + Z.of_nat (length (lt_val t)) <= Z.of_nat (length code) -> In t (trim_pad code lts)).
+Proof.
+  intros code lts H. split; [exact (contract_trim_pad code lts H)|].
+  intros t Ht Hn Hl. exact (trim_pad_keeps code lts t H Ht Hn Hl).
+Qed.
+Theorem C16_file_line_and_column : forall code lts lt t, contract (pad_nl code) lts -> kept_pair code (trim_pad code lts) lt t ->
+  t_kind t = lt_kind lt /\ t_value t = lt_val lt /\
+  t_line t = 1 + count_nl (firstn (Z.to_nat (lt_off lt)) code) /\
+  t_col t = lt_off lt - line_start (firstn (Z.to_nat (lt_off lt)) code) + 1.
+Proof. exact C16F_line_and_column. Qed.
+Theorem C16_file_text_at_position : forall code lts fc t, contract (pad_nl code) lts -> In t (lex_file code lts fc) ->
+  exists off, location_to_index code (t_line t) (t_col t) = OK off /\ 0 <= off /\
+    off + Z.of_nat (length (t_value t)) <= Z.of_nat (length code) /\
+    firstn (length (t_value t)) (skipn (Z.to_nat off) code) = t_value t.
+Proof. exact C16F_text_at_position. Qed.
+Theorem C16_file_strictly_increasing : forall code lts fc, contract (pad_nl code) lts ->
+  StronglySorted pos_lt (lex_file code lts fc).
+Proof. exact C16F_strictly_increasing. Qed.
+Theorem C16_file_no_overlap : forall code lts fc, contract (pad_nl code) lts ->
+  StronglySorted (fun t1 t2 => disjoint_on_line t1 t2 /\ disjoint_offsets code t1 t2) (lex_file code lts fc).
+Proof. exact C16F_no_overlap. Qed.
+Theorem C16_file_filtering : forall code lts fc t,
+  In t (lex_file code lts fc) <->
+  In t (locate code (trim_pad code lts)) /\ is_whitespace t = false /\ (fc = true -> is_comment t = false).
+Proof. exact C16F_filtering. Qed.
+
+Print Assumptions C16_padding_dropped.
+Print Assumptions C16_file_line_and_column.
+Print Assumptions C16_file_text_at_position.
+Print Assumptions C16_file_strictly_increasing.
+Print Assumptions C16_file_no_overlap.
+Print Assumptions C16_file_filtering.
 Print Assumptions C16_line_and_column.
 Print Assumptions C16_position_faithful.
 Print Assumptions C16_text_at_position.
